@@ -1525,7 +1525,7 @@ class Area(Quantity['Area']):
 class Density(Quantity['Density']):
     _baseunit = 'kg/m^3'
     _units = {'kg/m^3': 1.0, 'g/cm^3': 1000.0}
-    _displayunits = {'kg/m^3': 1.0, 'g/cm^3': 1000.0}
+    _displayunits = {}
     _descriptions = {'kg/m^3': 'kilogram per cubic meter',
                      'g/cm^3': 'gram per cubic centimeter'}
     _sidict = {'kg': 1, 'm':-3}
@@ -1826,9 +1826,7 @@ class Force(Quantity['Force']):
     _units = {'N': 1.0, 'dyn': 1.0E-5, 'kgf': 9.80665,
               'ozf': 0.2780138509537812, 'lbf': 4.4482216152605,
               'tnf': 8896.443230521, 'sn': 1000.0}
-    _displayunits = {'N': 1.0, 'dyn': 1.0E-5, 'kgf': 9.80665,
-              'ozf': 0.2780138509537812, 'lbf': 4.4482216152605,
-              'tnf': 8896.443230521, 'sn': 1000.0}
+    _displayunits = {}
     _descriptions = {'N': 'newton', 'dyn': 'dyne', 'kgf': 'kilogram-force',
                      'ozf': 'ounce-force', 'lbf': 'pound-force',
                      'tnf': 'ton-force', 'sn': 'sthene'}
@@ -2080,7 +2078,7 @@ class Pressure(Quantity['Pressure']):
 class SolidAngle(Quantity['SolidAngle']):
     _baseunit = 'sr'
     _units = {'sr': 1.0, 'sq.deg': 3.046174197867086E-4}
-    _displayunits = {'sr': 1.0, 'sq.deg': 3.046174197867086E-4}
+    _displayunits = {}
     _descriptions = {'sr': 'steradian', 'sq.deg': 'square degree'}
     _sidict = {'sr': 1}
     _mul = {}
@@ -2171,8 +2169,7 @@ class Torque(Quantity['Torque']):
     _baseunit = 'N.m'
     _units = {'N.m': 1.0, 'm.kgf': 9.80665, 'lbf.ft': 1.3558179483314003,
               'lbf.in': 0.1129848290276167}
-    _displayunits = {'N.m': 1.0, 'm.kgf': 9.80665, 'lbf.ft': 1.3558179483314003,
-              'lbf.in': 0.1129848290276167}
+    _displayunits = {}
     _descriptions = {'N.m': 'Newton meter',
                      'm.kgf': 'meter kilogram-force',
                      'lbf.ft': 'pound-foot', 'lbf.in': 'pound-inch'}
